@@ -18,18 +18,23 @@ const BASES: [Tag; 11] = [
     Tag::Any,
 ];
 
+/// Variables come from two modules alternately, as in the inference of a module that imports
+/// declarations whose tags still have variables: V0 and V1 (V2 and V3, ...) have the same
+/// sequence number and differ by their module only.
 pub struct Vars {
     seq: Seq,
+    seq2: Seq,
     ids: Vec<TagId>,
 }
 
 impl Vars {
     pub fn new(loc: Locator) -> Self {
-        Vars { seq: Seq::new(loc), ids: Vec::new() }
+        let other = Locator::try_from("file:///imported.oal").unwrap();
+        Vars { seq: Seq::new(loc), seq2: Seq::new(other), ids: Vec::new() }
     }
     pub fn get(&mut self, i: usize) -> TagId {
         while self.ids.len() <= i {
-            let id = self.seq.next();
+            let id = if self.ids.len() % 2 == 0 { self.seq.next() } else { self.seq2.next() };
             self.ids.push(id);
         }
         self.ids[i].clone()
